@@ -50,6 +50,9 @@ CHECKS = {
     "C14": dict(engine="ccmc-explorer", design="§4 C14", technique=MC + " with fault forking on the callbacks of the collection new_cyclic may start and on the closure",
                 text="NewCyclic with a closure menu from every explored state with automatic collection on: inside the closure strong_count 0 / upgrade None / weak_count 1; afterwards strong 1 and saved weaks upgrade; on a panic no callback ever sees a never-constructed value (canary + home-address seal), box and side record are released, saved weaks stay dead.",
                 note="Closure menu of 7 behaviours; N<=3."),
+    "C15": dict(engine="ccmc-policy", design="§4 C15", technique="explicit-state model checking of the real trigger/threshold code: BFS over allocation / release / garbage / configuration workloads with a 10-line reference policy as oracle",
+                text="State = (allocated bytes, byte threshold via hook, buffered count, auto_collect, adjustment_percent, buffered threshold, multiset of live blobs, pending garbage); every Cc creation's executions_count delta must equal auto && (bytes > threshold || buffered > buffered threshold) computed from observables sampled before the call; after every collection the threshold must be 100*2^k, above allocated bytes, and not needlessly high for the configured percent.",
+                note="Finite menus: 6 blob sizes (1..3000 bytes), 7 percentages incl. 0, 1e-9 and 1, buffered thresholds None/1/2, <=3 live blobs and <=4 objects in quick."),
     "C16": dict(engine="ccmc-explorer", design="§4 C16", technique=MC + " (macro-operations park clones up to MAX-k, then every operation sequence up to the depth bound is explored around the boundary)",
                 text="At MAX-k..MAX for both counters: clone/upgrade/downgrade/Weak::clone at the limit must panic with strong_count, weak_count, already_finalized and both header words unchanged; the object must still be reclaimed once (finalize once, drop once, free once) by the epilogue.",
                 note="Only the neighbourhood of the limits is branched on."),
@@ -88,6 +91,7 @@ def main():
             "add_only": True,
         },
         "engines": [
+            {"name": "ccmc-policy", "path": "harness/src/policy.rs, harness/src/bfs.rs", "serves_properties": ["C15"], "kind_free_text": "explicit-state BFS over the real auto-collect policy with a reference policy oracle"},
             {"name": "ccmc-explorer", "path": "harness/src (explore.rs, world.rs, world_ops.rs, alloc.rs, lens.rs)", "serves_properties": sorted(k for k, v in CHECKS.items() if "ccmc-explorer" in v["engine"]), "kind_free_text": "explicit-state BFS over the real crate by history replay; fault forking; crash isolation"},
         ],
         "checks": checks,
